@@ -12,8 +12,10 @@ from ._eam_potential import EAMPotential # noqa
 
 def _writeHeader(outfile, nrho, drho, nr, dr, cutoff, title, atomicNumber, mass, latticeConstant, latticeType):
   print(title, file=outfile)
-  print(u"%d %f %f %s" % (atomicNumber, mass, latticeConstant, latticeType), file=outfile)
-  print(u"%d %f %d %f %f" % (nrho, drho, nr, dr, cutoff), file=outfile)
+  # '%f' keeps six decimals: an increment such as 10/3000 would be declared as 0.003333 (and 2.5e-7 as 0),
+  # not the grid that is tabulated below. Written as in the setfl header.
+  print(u"%d %20.16e %20.16e %s" % (atomicNumber, mass, latticeConstant, latticeType), file=outfile)
+  print(u"%d %20.16e %d %20.16e %20.16e" % (nrho, drho, nr, dr, cutoff), file=outfile)
 
 def _writeValueBlock(outfile, values):
   numbertemplate = u" % 20.16e"
